@@ -110,6 +110,30 @@ def cases(rng, tier, stats):
             prog.append(("print", G.var("ক")))
         sh += g.shadow
         out.append(prog_case("scopes", prog, rng=r, mode="lines", nontrivial=g.shadow > 0, info={"shadowings": g.shadow}))
+    # every iteration starts with a FRESH body scope, also when the previous one left through an early `আবার;` nested in
+    # conditionals / blocks: a read or assignment placed before the body's own declaration reaches the outer variable, and a
+    # name declared only in the body is not visible at the start of the next iteration
+    nf = 0
+    for probe in range(3):
+        for nest in range(4):
+            for when in (1, 2):
+                for ctx in (0, 1):
+                    cont = [("continue",)]
+                    for d in range(nest):
+                        cont = [("if", [(G.b(True), cont)], None)] if (nest + d) % 2 == 0 else [("block", [("decl", "ভ", G.num(d))] + cont)]
+                    probe_st = {0: [("print", G.var("মান"))],
+                                1: [("assign", "মান", [], G.bin_("+", G.var("মান"), G.s("!")))],
+                                2: [("if", [(G.bin_(">", G.var("গ"), G.num(1)), [("print", G.var("শুধু"))])], None)]}[probe]
+                    body = [("assign", "গ", [], G.bin_("+", G.var("গ"), G.num(1))),
+                            ("if", [(G.bin_(">", G.var("গ"), G.num(3)), [("break",)])], None)] + probe_st + [
+                            ("decl", "মান", G.s("ভিতরের")), ("decl", "শুধু", G.num(1)), ("print", G.var("মান")),
+                            ("if", [(G.bin_("==", G.bin_("%", G.var("গ"), G.num(2)), G.num(when % 2)), cont)], None),
+                            ("print", G.s("জোড়"))]
+                    core = [("decl", "মান", G.s("বাইরের")), ("decl", "গ", G.num(0)), ("loop", body), ("print", G.var("মান")), ("print", G.var("গ"))]
+                    prog = core if ctx == 0 else [("func", "চল", [], core + [("return", G.var("গ"))]), ("print", G.call("চল"))]
+                    out.append(prog_case("fresh-body-scope", prog, info={"probe": probe, "nest": nest, "when": when, "context": ctx}))
+                    nf += 1
+    stats["fresh_body_scope"] = nf
     stats["programs"] = n
     stats["shadowing_declarations"] = sh
     return out
